@@ -184,7 +184,8 @@ def classify(case, impl, model, disc):
 LEVEL_TEXT = ("Proof: C05_type_rows_exact (for every tie order of the boundary rows the time credited to a bit pattern is the number of time cells during which exactly "
               "that combination of kernel types runs), C05_type_rows_partition (the patterns' times add up to the measure of the union), C05_sum_conserved, "
               "C05_named_at_most_k, C05_named_row_stats for every num_kernels >= 1 and every bucketing; correspondence on both returned frames of "
-              "get_gpu_kernel_breakdown and on get_gpu_user_annotation_breakdown.")
+              "get_gpu_kernel_breakdown and on get_gpu_user_annotation_breakdown."
+              " C05_types_resolution_independent: times multiplied by k > 0 multiply every combination's time by k.")
 LEVEL_NOTE = ("Hand model of _get_gpu_kernel_type_time (per-type merge, +-2^i rows, sort, running sum) and _aggr_gpu_kernel_time (group, sort by sum, cumulative "
               "sum, interpolated quantile, the two 'others' rules). Which of several names with equal totals lands in 'others' is left free.")
 TECHNIQUE = "Coq proof (sweep-line lemma with bit-pattern selection, cell-counting measure; list induction for the aggregator) + differential correspondence via vm_compute"
